@@ -182,6 +182,9 @@ func genUnitCase(r *Rng, fn string) unitCase {
 
 func runUnit(fs *flag.FlagSet, prop string, seed uint64, n int, outDir, file string) int {
 	fn := prop // -prop carries the function name
+	if fn == "crossings" {
+		return runCrossUnit(seed, n, outDir)
+	}
 	code := map[string]int{"vbalance": 1, "normalize": 2, "ns": 3, "p1greedy": 4, "p1dfs": 5}[fn]
 	if code == 0 {
 		fmt.Fprintln(os.Stderr, "unknown unit function", fn)
